@@ -3,6 +3,7 @@ package scen
 import (
 	"bytes"
 	"fmt"
+	"sort"
 	"strings"
 
 	"simlal/sim"
@@ -176,6 +177,25 @@ func CheckC01(k *sim.Kernel, rr *RelayRun) {
 		JudgeConsumer(k, "C01", name, c, rr.Forwardable(c.Plan.Stream), rr.Plan.Conf)
 	}
 	// relay-push targets: what lal publishes to a target is the publisher's stream, metadata with @setDataFrame ensured
+	// attach instants of the push sessions: the n-th session whose publish was accepted by its target is attached by
+	// the first AddRtmpPushSession after that answer that is not taken yet
+	{
+		grants := k.GrantSteps("AddRtmpPushSession")
+		used := make([]bool, len(grants))
+		order := append([]*ConsState(nil), rr.PushCons...)
+		sort.SliceStable(order, func(i, j int) bool { return order[i].Push.StartedStep < order[j].Push.StartedStep })
+		for _, c := range order {
+			if !c.Push.Started {
+				continue
+			}
+			for gi, g := range grants {
+				if !used[gi] && g > c.Push.StartedStep {
+					used[gi], c.PushAttachStep = true, g
+					break
+				}
+			}
+		}
+	}
 	for pi, c := range rr.PushCons {
 		st := c.Push
 		name := fmt.Sprintf("push%d(%s)", pi, st.Stream)
